@@ -707,16 +707,34 @@ func (p *Process) ceaseFlowMonitor(tracer tracing.ITracer) func(ctx context.Cont
 			select {
 			case trace := <-traces:
 				trace = tracing.Unwrap(trace)
+				// only the process's OWN start events count, each once: the start event of an
+				// embedded sub-process (its traces are relayed to this tracer) is not one of them
+				activated := func(flowNode *schema.StartEvent) {
+					own := false
+					for i := range *p.element.StartEvents() {
+						if &(*p.element.StartEvents())[i] == flowNode {
+							own = true
+						}
+					}
+					for _, seen := range startEventsActivated {
+						if seen == flowNode {
+							own = false
+						}
+					}
+					if own {
+						startEventsActivated = append(startEventsActivated, flowNode)
+					}
+				}
 				switch t := trace.(type) {
 				case TerminationTrace:
 					switch flowNode := t.Source.(type) {
 					case *schema.StartEvent:
-						startEventsActivated = append(startEventsActivated, flowNode)
+						activated(flowNode)
 					}
 				case FlowTrace:
 					switch flowNode := t.Source.(type) {
 					case *schema.StartEvent:
-						startEventsActivated = append(startEventsActivated, flowNode)
+						activated(flowNode)
 					}
 				}
 			case <-ctx.Done():
